@@ -224,7 +224,7 @@ def run_query(q, pid, tier, seed, bdir_root, log):
         if any(any(e in d for e in ERR_DESCR) for d in descr):
             res['status'] = 'error'; res['error'] = 'bound too small / shim capacity: %s' % descr[:3]; return res
         inputs = trace_inputs(m['out'])
-        rdir = os.path.join(VERIF, 'evidence', 'replay', '%s-%s' % (pid, q.name))
+        rdir = os.path.join(VERIF, 'evidence', 'replay', '%s-%s' % (pid, q.name)) if REPO == '/repo' else os.path.join(bdir, 'replay')
         memfail = not any(any(v_ in d for v_ in VIOL_DESCR) for d in descr)
         ok, whatf, rout = replay(q, b, bdir, inputs, rdir, log, valgrind=memfail)
         res['replay'] = {'path': os.path.relpath(rdir, VERIF), 'confirmed': ok, 'what': whatf, 'inputs': inputs[:64]}
@@ -253,7 +253,7 @@ def main():
     pid = a.pid; tier = a.tier; seed = int(os.environ.get('VERIF_SEED', '1') or 1)
     t0 = time.time()
     mod = load_prop(pid)
-    bdir_root = os.path.join(VERIF, 'build', pid + '-' + tier)
+    bdir_root = os.path.join(VERIF, 'build', pid + '-' + tier + ('' if REPO == '/repo' else '-' + hashlib.md5(REPO.encode()).hexdigest()[:8]))
     if a.replay:
         rdir = os.path.join(VERIF, a.replay) if not os.path.isabs(a.replay) else a.replay
         meta = json.load(open(os.path.join(rdir, 'meta.json')))
